@@ -283,6 +283,8 @@ def run(prop, seed, budget, ctx):
         for j in range(k): f4 += ["@dataclass", f"class Pet{i}_{j}(Pet{i}):", f"    f{j}: int = 0", ""]
         f4 += ["@dataclass", f"class Owner{i}:", f"    pet: Pet{i}_0", ""]
         f4 += [f"NT{i} = NewType('NT{i}', {rnd4.choice(['int', 'str', 'bool'])})", ""]
+        # a class the library knows nothing about: as a union alternative it is dropped, and so is its name
+        f4 += [f"class Token{i}:", "    pass", "", "@dataclass", f"class THolder{i}:", f"    x: Union[int, Token{i}]", f"    y: Optional[Union[Token{i}, Other{i}]] = None", f"    z: List[Union[Other{i}, Token{i}]] = field(default_factory=list)", ""]
         f4 += ["@dataclass", f"class PNode{i}:", "    v: int = 0", f"    kids: Dict[str, 'PNode{i}'] = field(default_factory=dict, metadata=properties)", ""]
         shapes.append({"i": i, "twice": twice, "ret": ret, "k": k})
     ns5 = dict(vars(build_module(f4, f"fam4_{seed}")))
@@ -319,6 +321,20 @@ def run(prop, seed, budget, ctx):
                         if dangling: failures.append(dict(info, kind="P", k_ok=None, why=["dangling-$ref:" + ",".join(dangling)], schema=s))
                         ok, msg = meta_valid(s)
                         if ok is not True: failures.append(dict(info, kind="P", k_ok=None, why=["invalid-against-declared-meta-schema:" + msg], schema=s))
+                for root in (f"Union[int, Token{i}]", f"Union[Token{i}, Other{i}]", f"List[Optional[Union[Token{i}, Other{i}, int]]]", f"THolder{i}", f"Tuple[THolder{i}, Union[Token{i}, str]]"):
+                    for ver in ("DRAFT_2020_12", "OPEN_API_3_0"):
+                        info = {"family4": "unsupported-union-alternative", "root": root, "all_refs": all_refs, "fn": fn.__name__, "version": ver}
+                        evaluations += 1; distinct.add(("fam4", "unsupported", i, root.replace(str(i), ""), all_refs, fn.__name__, ver))
+                        s = gen4(fn, eval(root, ns5), info, all_refs=all_refs, version=getattr(JsonSchemaVersion, ver))
+                        if s is None: continue
+                        used = refs_in(s, prefix_keys=("$defs", "definitions", "schemas")) + [y for v in s.get("$defs", {}).values() for y in refs_in(v)]
+                        if any(x == f"Token{i}" or str(x).endswith(f"/Token{i}") for x in used) or f"Token{i}" in json.dumps(s):
+                            failures.append(dict(info, kind="P", k_ok=None, why=["dropped-alternative-still-referenced:Token"], schema=s)); continue
+                        if ver == "DRAFT_2020_12": closed_and_no_orphans(s, f"{fn.__name__}({root})", info)
+                        try:
+                            ds = dict(definitions_schema(**{("deserialization" if fn is deserialization_schema else "serialization"): [eval(root, ns5)]}, all_refs=all_refs))
+                            if f"Token{i}" in ds: failures.append(dict(info, kind="P", k_ok=None, why=["definition-of-an-unsupported-type"], got=sorted(ds)))
+                        except Exception as e: failures.append(dict(info, kind="P", k_ok=None, why=["definitions_schema-raises:" + type(e).__name__]))
                 for root in (f"Union[int, NT{i}, str]", f"Union[NT{i}, bool, NT{i}]", f"List[Union[str, NT{i}, int, bool]]"):
                     for ver in ("DRAFT_2020_12", "DRAFT_7", "OPEN_API_3_0"):
                         info = {"family4": "alternatives-of-one-json-type", "root": root, "version": ver, "fn": fn.__name__}
